@@ -296,7 +296,8 @@ def run_sessions(case, only=None):
                 s["rule"], estimate_without_term_frequencies=s["ewtf"], fix_m_probabilities=s["fix_m"],
                 fix_u_probabilities=s["fix_u"], fix_probability_two_random_records_match=s["fix_lam"])
         except Exception as e:  # no pairs / nothing to train: not in the property's quantifier
-            recs.append({"skipped": repr(e)[:200], "session": si})
+            recs.append({"skipped": repr(e)[:200], "session": si, "before": before,
+                         "br_cols": sorted(get_columns_used_from_sql(s["rule"], sqlglot_dialect=dialect))})
             break
         tabs = cap.take()
         hist = [read_model(case, h, with_tf) for h in sess._core_model_settings_history]
